@@ -180,7 +180,10 @@ func (h *cbHandler) onGraphEnd(ctx context.Context,
 }
 
 func (h *cbHandler) onGraphEndWithStreamOutput(ctx context.Context,
-	_ *callbacks.RunInfo, _ *schema.StreamReader[callbacks.CallbackOutput]) context.Context {
+	_ *callbacks.RunInfo, output *schema.StreamReader[callbacks.CallbackOutput]) context.Context {
+
+	// this handler's copy of the graph's output is not read: give it up, or the source stays open
+	output.Close()
 
 	h.sMsgs.Close()
 
@@ -198,7 +201,10 @@ func (h *cbHandler) onGraphStart(ctx context.Context,
 }
 
 func (h *cbHandler) onGraphStartWithStreamInput(ctx context.Context, _ *callbacks.RunInfo,
-	_ *schema.StreamReader[callbacks.CallbackInput]) context.Context {
+	input *schema.StreamReader[callbacks.CallbackInput]) context.Context {
+
+	// this handler's copy of the graph's input is not read: give it up, or the source stays open
+	input.Close()
 
 	h.sMsgs = internal.NewUnboundedChan[item[*schema.StreamReader[*schema.Message]]]()
 
